@@ -14,20 +14,20 @@ def pairwise_sorted(S, at, n):
 
 
 def _sorted_lemma(S):
-    """adjacent-sorted => pairwise-sorted, by induction on the distance d between the indices."""
+    """adjacent-sorted => pairwise-sorted, by induction on the upper index j."""
     x = z3.Array("lem_x", z3.IntSort(), z3.IntSort())
     n, d = z3.Ints("lem_n lem_d")
     at = lambda i: z3.Select(x, i)
     adj = adjacent_sorted(S, at, n)
-    P = lambda dd: S.forall(0, n, lambda i: S.Implies(S.And(i + dd < n), at(i) <= at(i + dd)))
-    return [("base: distance 0", [adj, n >= 0], P(z3.IntVal(0))),
-            ("step: distance d -> d+1", [adj, n >= 0, d >= 0, P(d)], P(d + 1)),
-            ("conclusion: all distances => pairwise", [n >= 0, S.forall(0, n + 1, lambda dd: P(dd), kind="value")],
+    P = lambda j: S.forall(0, j + 1, lambda i: at(i) <= at(j))
+    return [("base: j = 0", [adj, n >= 0], P(z3.IntVal(0))),
+            ("step: j -> j+1", [adj, n >= 0, d >= 0, d + 1 < n, P(d)], P(d + 1)),
+            ("conclusion: P(j) for all j < n is pairwise sortedness", [n >= 0, S.forall(0, n, lambda j: P(j))],
              pairwise_sorted(S, at, n))]
 
 
 SORTED = Lemma("adjacent-sorted implies pairwise-sorted", _sorted_lemma,
-               doc="induction on index distance; the induction principle itself is the only trusted step")
+               doc="induction on the upper index; the induction principle itself is the only trusted step")
 
 
 def sorted_instance(S, at, n):
@@ -44,17 +44,17 @@ def pairwise_disjoint(S, start, end, n):
 
 
 def _disjoint_lemma(S):
-    """adjacent-disjoint and non-negative lengths => pairwise-disjoint (induction on distance)."""
+    """adjacent-disjoint and non-negative lengths => pairwise-disjoint (induction on the upper index j)."""
     s = z3.Array("lem_s", z3.IntSort(), z3.IntSort())
     e = z3.Array("lem_e", z3.IntSort(), z3.IntSort())
     n, d = z3.Ints("lem_n lem_d")
     st = lambda i: z3.Select(s, i)
     en = lambda i: z3.Select(e, i)
     hyp = [adjacent_disjoint(S, st, en, n), S.forall(0, n, lambda i: en(i) >= st(i)), n >= 0]
-    P = lambda dd: S.forall(0, n, lambda i: S.Implies(i + dd < n, en(i) <= st(i + dd)))
-    return [("base: distance 1", hyp, P(z3.IntVal(1))),
-            ("step: distance d -> d+1", hyp + [d >= 1, P(d)], P(d + 1)),
-            ("conclusion: all distances >= 1 => pairwise", [n >= 0, S.forall(1, n + 1, lambda dd: P(dd), kind="value")],
+    P = lambda j: S.forall(0, j, lambda i: en(i) <= st(j))
+    return [("base: j = 0", hyp, P(z3.IntVal(0))),
+            ("step: j -> j+1", hyp + [d >= 0, d + 1 < n, P(d)], P(d + 1)),
+            ("conclusion: P(j) for all j < n is pairwise disjointness", [n >= 0, S.forall(0, n, lambda j: P(j))],
              pairwise_disjoint(S, st, en, n))]
 
 
